@@ -314,9 +314,14 @@ theorem md_constants_conform :
     Relic.Gen.MdConsts.sha256K = Spec.Sha256.K ∧ Relic.Gen.MdConsts.sha224H0 = Spec.Sha256.H0_224.toArray ∧
     Relic.Gen.MdConsts.sha256H0 = Spec.Sha256.H0.toArray ∧ Relic.Gen.MdConsts.sha512K = Spec.Sha512.K ∧
     Relic.Gen.MdConsts.sha384H0 = Spec.Sha512.H0_384.toArray ∧ Relic.Gen.MdConsts.sha512H0 = Spec.Sha512.H0_512.toArray ∧
-    Relic.Gen.MdConsts.blake2sIV = Relic.Spec.Blake2s.IV ∧ Relic.Gen.MdConsts.blake2sSigma = Relic.Spec.Blake2s.sigma :=
+    Relic.Gen.MdConsts.blake2sIV = Relic.Spec.Blake2s.IV ∧ Relic.Gen.MdConsts.blake2sSigma = Relic.Spec.Blake2s.sigma ∧
+    -- the variant of sha384-512.c that is compiled keeps the 64-bit constants as (high, low) pairs of 32-bit words
+    Relic.Gen.MdConsts.join32 Relic.Gen.MdConsts.sha512K32 = Spec.Sha512.K.toList ∧
+    Relic.Gen.MdConsts.join32 Relic.Gen.MdConsts.sha384H032 = Spec.Sha512.H0_384 ∧
+    Relic.Gen.MdConsts.join32 Relic.Gen.MdConsts.sha512H032 = Spec.Sha512.H0_512 :=
   ⟨Relic.Gen.MdConsts.sha256K_eq, Relic.Gen.MdConsts.sha224H0_eq, Relic.Gen.MdConsts.sha256H0_eq, Relic.Gen.MdConsts.sha512K_eq,
-   Relic.Gen.MdConsts.sha384H0_eq, Relic.Gen.MdConsts.sha512H0_eq, Relic.Gen.MdConsts.blake2sIV_eq, Relic.Gen.MdConsts.blake2sSigma_eq⟩
+   Relic.Gen.MdConsts.sha384H0_eq, Relic.Gen.MdConsts.sha512H0_eq, Relic.Gen.MdConsts.blake2sIV_eq, Relic.Gen.MdConsts.blake2sSigma_eq,
+   Relic.Gen.MdConsts.sha512K32_eq, Relic.Gen.MdConsts.sha384H032_eq, Relic.Gen.MdConsts.sha512H032_eq⟩
 
 /-- non-vacuity: PKCS#7 of a 3-byte message; the padding split of SHA-256 at 55/56 bytes -/
 example : Aes.pkcs7Pad [1, 2, 3] = [1, 2, 3] ++ List.replicate 13 13 := by decide
